@@ -203,6 +203,9 @@ def check_case(cell, bundle, ctx):
 
     hsp = zlib.crc32(("spell" + cell["id"]).encode())
     vs = _make(be, sa, rows, mom, dt, spell=(hsp >> 1) % 3 if (mom and hsp % 2) else None)
+    if be == "numpy" and (hsp >> 3) % 2:
+        # arrays of vectors with more than one axis (keyword arrays of shape (n,) broadcast against (1, n))
+        vs = vs.reshape(1, len(rows))
     groups = [(i, vs[i]) for i in range(len(rows))] if _single(be) else [(None, vs)]
 
     for gi, v in groups:
@@ -233,6 +236,15 @@ def _kw_elem(val, i, n, as_array, be):
     if as_array == "shallow" and be == "awkward" and n > 1:
         return float(val) if i < n - 1 else float(val + 0.25)
     return float(val + i * 0.125)
+
+
+def _shape_kwargs(be, v, kwargs):
+    """keyword arrays take the shape of a NumPy operand with more than one axis (how a (n,) keyword array combines with a
+    (1, n) array of vectors is not the property's subject)"""
+    if be == "numpy" and getattr(v, "ndim", 1) > 1:
+        for k_, val_ in list(kwargs.items()):
+            if isinstance(val_, numpy.ndarray) and val_.ndim == 1:
+                kwargs[k_] = val_.reshape(v.shape)
 
 
 def _check_to(cell, ctx, fail, v, idx, subs, rows, exact, be, mp_, mom, tol, sa, d, s0):
@@ -274,6 +286,7 @@ def _check_to(cell, ctx, fail, v, idx, subs, rows, exact, be, mp_, mom, tol, sa,
         return
     ctx.evaluation(len(idx))
     try:
+        _shape_kwargs(be, v, kwargs)
         r = getattr(v, mname)(**kwargs)
     except ZeroDivisionError:
         ctx.exclude("singular")
@@ -283,6 +296,9 @@ def _check_to(cell, ctx, fail, v, idx, subs, rows, exact, be, mp_, mom, tol, sa,
         return
     try:
         sysr, rrows, rmom, rdim = _read(be, r)
+        if be == "numpy" and getattr(r, "shape", None) != v.shape:
+            fail("structure", f"result has shape {getattr(r, 'shape', None)}, the operand array has shape {v.shape}")
+            return
     except Exception as e:  # noqa: BLE001
         fail("result_type", f"result {type(r).__name__} is not a readable vector: {e!r}")
         return
@@ -422,12 +438,16 @@ def _check_dim(cell, ctx, fail, v, idx, subs, rows, exact, be, mp_, mom, tol, sa
     exp_sys = tuple(exp_sys)
     ctx.evaluation(n)
     try:
+        _shape_kwargs(be, v, kwargs)
         r = call(**kwargs)
     except Exception as e:  # noqa: BLE001
         fail("exception", f"{m}({list(kwargs)}) raised {type(e).__name__}: {e!s:.300}")
         return
     try:
         sysr, rrows, rmom, rdim = _read(be, r)
+        if be == "numpy" and getattr(r, "shape", None) != v.shape:
+            fail("structure", f"result has shape {getattr(r, 'shape', None)}, the operand array has shape {v.shape}")
+            return
     except Exception as e:  # noqa: BLE001
         fail("result_type", f"result {type(r).__name__} is not a readable vector: {e!r}")
         return
